@@ -65,12 +65,17 @@ class Runner:
         COVERS[label] = COVERS.get(label, 0) + 1
 
     def _run_oracle(self, idx):
+        shard, nshards = 0, 1
+        if isinstance(idx, tuple):
+            idx, shard, nshards = idx
         name, gen, fn, obligation = self.oracles[idx]
         fails, n, samples, classes = [], 0, [], {}
         COVERS.clear()
         t0 = time.time()
         try:
-            for inp in gen(self.args.tier, self.args.seed):
+            for pos, inp in enumerate(gen(self.args.tier, self.args.seed)):
+                if pos % nshards != shard:
+                    continue
                 n += 1
                 try:
                     r = fn(inp)
@@ -103,7 +108,25 @@ class Runner:
             print(json.dumps({"evaluations": 1, "failures": [dict(jsonable(r), oracle=name, input=doc["input"])] if r else []}))
             return 0
         jobs = int(os.environ.get("VERIF_NATIVE_JOBS", "8"))
-        if len(self.oracles) > 1 and jobs > 1:
+        nshards = getattr(self, "shards", 1)
+        if nshards > 1 and jobs > 1:        # slow oracles: the inputs of each oracle are dealt round-robin to `shards` workers
+            tasks = [(i, sh, nshards) for i in range(len(self.oracles)) for sh in range(nshards)]
+            with multiprocessing.get_context("fork").Pool(min(max(jobs, 14), len(tasks))) as pool:
+                parts = pool.map(self._run_oracle, tasks, chunksize=1)
+            res = []
+            for i in range(len(self.oracles)):
+                mine = [p_ for p_, t_ in zip(parts, tasks) if t_[0] == i]
+                cls = {}
+                for p_ in mine:
+                    for k_, v_ in p_["fail_classes"].items():
+                        cls[k_] = cls.get(k_, 0) + v_
+                cov = {}
+                for p_ in mine:
+                    for k_, v_ in p_["covers"].items():
+                        cov[k_] = cov.get(k_, 0) + v_
+                res.append({"name": mine[0]["name"], "n": sum(p_["n"] for p_ in mine), "fails": [f for p_ in mine for f in p_["fails"]][:6],
+                            "samples": mine[0]["samples"], "covers": cov, "s": max(p_["s"] for p_ in mine), "fail_classes": cls})
+        elif len(self.oracles) > 1 and jobs > 1:
             with multiprocessing.get_context("fork").Pool(min(jobs, len(self.oracles))) as pool:
                 res = pool.map(self._run_oracle, range(len(self.oracles)), chunksize=1)
         else:
